@@ -5990,14 +5990,18 @@ impl<'a> Relative<'a> {
             && relspan.span.get_sign_ranged() != C(0)
             && span.get_sign_ranged() != relspan.span.get_sign_ranged()
         {
-            // I haven't quite figured out when this case is hit. I think it's
-            // actually impossible right? Balancing a duration should not flip
-            // the sign.
+            // Balancing a duration should not flip the sign. But it can
+            // when adding the span to a zoned datetime lands on the other
+            // side of it, which happens for time zones with a transition
+            // that shifts the clock by more than a day.
             //
             // ref: https://github.com/fullcalendar/temporal-polyfill/blob/9e001042864394247181d1a5d591c18057ce32d2/packages/temporal-polyfill/src/internal/durationMath.ts#L236-L238
-            unreachable!(
-                "balanced span should have same sign as original span"
-            )
+            return Err(err!(
+                "balancing span {span} relative to its reference datetime \
+                 resulted in a span with the opposite sign \
+                 (a time zone transition shifts the clock by more \
+                 than a day)",
+            ));
         }
         Ok(relspan)
     }
